@@ -3,4 +3,5 @@ package all
 
 import (
 	_ "verif/props/c08"
+	_ "verif/props/c09"
 )
